@@ -120,7 +120,7 @@ class Report:
 
     def sample(self, prop, text, cap=3):
         v = self.samples.setdefault(prop, [])
-        if len(v) < cap:
+        if len(v) < max(cap, int(os.environ.get("PYFRONT_SAMPLES", "0"))):
             v.append(one_line(text, 400))
 
     def fail(self, prop, text):
@@ -129,6 +129,16 @@ class Report:
 
     def error(self, text):
         self.errors.append(one_line(text))
+
+    def merge(self, other):
+        for k, v in other.evals.items():
+            self.eval(k, v)
+        for k, v in other.hist.items():
+            self.count(k, v)
+        for k, v in other.samples.items():
+            self.samples.setdefault(k, []).extend(v)
+        self.fails.extend(other.fails)
+        self.errors.extend(other.errors)
 
     def absorb(self, line):
         """an oracle line printed by a worker or by the harness"""
@@ -196,26 +206,55 @@ def import_constriction(proto):
     return constriction, numpy
 
 
-def run_worker(args, rep, label):
-    """runs `pyfront.py <args>`; absorbs its lines; returns (returncode, last line seen)"""
+CASE_TIMEOUT = float(os.environ.get("PYFRONT_CASE_TIMEOUT", "10"))
+
+
+def run_worker(args, rep, label, timeout=None):
+    """runs `pyfront.py <args>` and absorbs its oracle lines.  The worker prints a line before
+    every case, so `timeout` (seconds without a new line; a `RUNNING … timeout=<s>` line sets its
+    own) bounds the time of one case.  Returns (status, extra): status is "done" (the worker
+    printed DONE), "hang" (killed by the watchdog), "abort" (died from a signal), "exit" (ended
+    early without DONE); extra = the non-oracle lines (RUNNING/RESULT/GROUP/WRITTEN/DONE)."""
+    import select
     env = dict(os.environ)
     env["RUST_BACKTRACE"] = "0"
     p = subprocess.Popen([PY, os.path.abspath(__file__)] + args, stdout=subprocess.PIPE,
-                         stderr=subprocess.DEVNULL if not os.environ.get("PYFRONT_DEBUG") else None,
-                         text=True, env=env)
-    last = ""
+                         stderr=subprocess.DEVNULL if not os.environ.get("PYFRONT_DEBUG") else None, env=env)
+    fd = p.stdout.fileno()
+    buf = b""
     extra = []
-    for line in p.stdout:
-        line = line.rstrip("\n")
-        if not line:
-            continue
-        last = line
-        if line.split(" ", 1)[0] in ("EVAL", "HIST", "SAMPLE", "FAIL", "ERROR"):
-            rep.absorb(line)
-        else:
-            extra.append(line)
-    p.wait()
-    return p.returncode, last, extra
+    limit = timeout or CASE_TIMEOUT
+    status = None
+    while True:
+        ready, _, _ = select.select([fd], [], [], limit)
+        if not ready:
+            p.kill()
+            status = "hang"
+            break
+        chunk = os.read(fd, 1 << 16)
+        if not chunk:
+            break
+        buf += chunk
+        while b"\n" in buf:
+            raw, buf = buf.split(b"\n", 1)
+            line = raw.decode("utf-8", "replace")
+            if not line:
+                continue
+            if line.split(" ", 1)[0] in ("EVAL", "HIST", "SAMPLE", "FAIL", "ERROR"):
+                rep.absorb(line)
+            else:
+                extra.append(line)
+                limit = timeout or CASE_TIMEOUT
+                if line.startswith("RUNNING "):
+                    for tok in line.split(" ", 4)[:4]:
+                        if tok.startswith("timeout="):
+                            limit = float(tok[8:])
+    rc = p.wait()
+    if status is None:
+        status = "done" if "DONE" in extra else ("abort" if rc is not None and rc < 0 else "exit")
+    if status == "abort":
+        extra.append("SIGNAL %d" % -rc)
+    return status, extra
 
 
 # ------------------------------------------------------------------------------------------
@@ -273,15 +312,18 @@ def worker_docs():
 
 
 def campaign_docs(rep):
-    rc, last, extra = run_worker(["_docs"], rep, "docs")
-    if "DONE" not in extra:
+    status, extra = run_worker(["_docs"], rep, "docs", timeout=max(CASE_TIMEOUT, 180))
+    if status != "done":
         running = [l for l in extra if l.startswith("RUNNING ")]
         where = running[-1][8:] if running else "(before the first test)"
-        if rc is not None and rc < 0:
+        if status == "abort":
             rep.eval("C06")
-            rep.fail("C06", "python documented example %s: interpreter died with signal %d" % (where, -rc))
+            rep.fail("C06", "python documented example %s: interpreter died (%s)" % (where, extra[-1]))
+        elif status == "hang":
+            rep.eval("C06")
+            rep.fail("C06", "python documented example %s: no result after %d s (killed)" % (where, max(CASE_TIMEOUT, 180)))
         elif not rep.errors:
-            rep.error("docs worker ended early (exit %s) at %s" % (rc, where))
+            rep.error("docs worker ended early at %s" % where)
 
 
 # ------------------------------------------------------------------------------------------
@@ -488,7 +530,7 @@ class Gen:
             rowvals = arr.astype(self.np.float64).tolist()
             msg = self.cat_message(n, lambda j: rowvals[j], ncols)
             base = dict(coder=coder, model="cat", fbits=fbits, n=n, family=1, ncols=ncols,
-                        probs=self.fbits_list(arr), msg=msg, style="+".join(sorted(set(styles))))
+                        probs=self.fbits_list(arr), msg=msg, style="mixed")
             if coder == "chain":
                 base["data"] = self.chain_data(n)
             return [self.new_case(variant=variant, **base)]
@@ -608,26 +650,67 @@ class Gen:
             c["data"] = self.chain_data(n)
         return [self.new_case(**c)]
 
+    @staticmethod
+    def binomial_safe(nn, p):
+        """outside the region where `probability` 0.20.3's `Binomial::inverse` (the quantile hint of
+        the leaky quantizer) never returns: for n < 1000 it sums from p^n or q^n, which underflows
+        to zero for n*ln(1/p) > 745; for n >= 1000 and npq <= 80 it runs an unguarded Newton
+        iteration.  The region itself is covered by `hang_probes` (reported finding)."""
+        q = 1.0 - p
+        if not (0.0 < p < 1.0 and 0.0 < q < 1.0):
+            return False
+        if nn < 1000:
+            return nn * max(-math.log(p), -math.log(q)) < 700.0
+        return nn * p * q > 80.0
+
     def gen_binomial(self):
         r = self.r
+        np = self.np
         n = self.length()
         fbits = self.fdtype()
         kinds = r.choice([("s", "s"), ("a", "a"), ("s", "a"), ("a", "s")])
+        as_f32 = fbits == 32 and kinds[1] == "a"
 
         def trials():
-            return r.choice([1, 2, 3, 10, 100, 1000]) if r.random() < 0.4 else r.randint(1, 2000)
+            return r.choice([1, 2, 3, 10, 100, 999, 1000]) if r.random() < 0.4 else r.randint(1, 2000)
 
-        def p():
+        def prob():
             # the `probability` crate debug-asserts 0 < p < 1 (the harness build has debug assertions
             # on); p in {0.0, 1.0} is covered by campaign (c) as a round-trip-only case
             k = r.random()
             if k < 0.2:
-                return r.choice([0.5, 1e-9, 1.0 - 1e-9, 1e-3, 0.999])
-            return min(max(r.random(), 1e-12), 1.0 - 1e-12)
-        ns = [trials() for _ in range(max(n, 1))]
-        ps = [p() for _ in range(max(n, 1))]
-        if fbits == 32:
-            ps = [min(max(q, 1e-7), 0.99999) for q in ps]       # must stay inside (0,1) as f32
+                q = r.choice([0.5, 1e-9, 1.0 - 1e-9, 1e-3, 0.999])
+            else:
+                q = min(max(r.random(), 1e-12), 1.0 - 1e-12)
+            if as_f32:
+                q = float(np.float32(min(max(q, 1e-7), 0.99999)))
+            return q
+        count = max(n, 1)
+        safe = self.binomial_safe
+
+        def draw(fixed_n=None, fixed_p=None):
+            for _ in range(300):
+                nn = fixed_n if fixed_n is not None else trials()
+                pp = fixed_p if fixed_p is not None else prob()
+                if safe(nn, pp):
+                    return nn, pp
+            # p = 0.5 is safe for every n; n <= 20 is safe for every p generated here
+            if fixed_n is not None:
+                return fixed_n, 0.5
+            return r.randint(1, 20), fixed_p
+        if kinds == ("s", "s"):
+            nn, pp = draw()
+            ns, ps = [nn] * count, [pp] * count
+        elif kinds[0] == "s":
+            nn = trials()
+            ns, ps = [nn] * count, [draw(fixed_n=nn)[1] for _ in range(count)]
+        elif kinds[1] == "s":
+            pp = prob()
+            ns, ps = [draw(fixed_p=pp)[0] for _ in range(count)], [pp] * count
+        else:
+            pairs = [draw() for _ in range(count)]
+            ns, ps = [a for a, _ in pairs], [b for _, b in pairs]
+        assert all(safe(a, b) for a, b in zip(ns, ps)), (ns, ps)
         c = dict(coder=self.coder(), model="binomial", variant="", fbits=fbits, n=n, lo=0, hi=0,
                  p0kind=kinds[0], p1kind=kinds[1])
         c["p0"] = [ns[0]] if kinds[0] == "s" else ns[:n]
@@ -635,25 +718,33 @@ class Gen:
             c["p1"] = [f64_bits(ps[0])]
         else:
             c["p1"] = self.fbits_list(self.farray(ps[:n], fbits))
-        nn = (lambda j: ns[0]) if kinds[0] == "s" else (lambda j: ns[j])
-        pp = (lambda j: ps[0]) if kinds[1] == "s" else (lambda j: ps[j])
         msg = []
         for j in range(n):
             k = r.random()
             if k < 0.15:
                 msg.append(0)
             elif k < 0.30:
-                msg.append(nn(j))
+                msg.append(ns[j])
             elif k < 0.85:
-                m = nn(j) * pp(j)
-                sd = math.sqrt(max(nn(j) * pp(j) * (1 - pp(j)), 1e-9))
-                msg.append(min(nn(j), max(0, int(round(r.gauss(m, sd))))))
+                m = ns[j] * ps[j]
+                sd = math.sqrt(max(ns[j] * ps[j] * (1 - ps[j]), 1e-9))
+                msg.append(min(ns[j], max(0, int(round(r.gauss(m, sd))))))
             else:
-                msg.append(r.randint(0, nn(j)))
+                msg.append(r.randint(0, ns[j]))
         c["msg"] = msg
         if c["coder"] == "chain":
             c["data"] = self.chain_data(n)
         return [self.new_case(**c)]
+
+    def hang_probes(self):
+        """valid Binomial models whose decoding did not return when this check was written
+        (`probability::distribution::Binomial::inverse`, see `binomial_safe`); 3 s watchdog each"""
+        out = []
+        for nn, pp in ((920, 0.4399495634132061), (1303, 0.999999999)):
+            out.append(self.new_case(coder="ans", model="binomial", variant="", fbits=64, n=1, lo=0, hi=0,
+                                     p0kind="s", p1kind="s", p0=[nn], p1=[f64_bits(pp)], msg=[nn],
+                                     probe=1, timeout=3))
+        return out
 
     def gen_group(self):
         kind = self.r.choices(["cat", "gauss", "laplace", "cauchy", "uniform", "bernoulli", "binomial"],
@@ -830,40 +921,56 @@ def n_groups(tier):
     return 260 if tier == "quick" else 5200
 
 
-def worker_gen(seed, tier, out_path, only_id=None):
-    proto = Proto()
-    constriction, np = import_constriction(proto)
-    g = Gen(seed, tier, np)
+PROP_OF_CODER = {"ans": "C01", "range": "C02", "chain": "C13"}
+
+
+def all_groups(g, tier):
     groups = [[c] for c in g.documented_cases()]
     for _ in range(n_groups(tier)):
         groups.append(g.gen_group())
+    groups.extend([c] for c in g.hang_probes())
+    return groups
+
+
+def worker_gen(seed, tier, out_path, start_group=0, only_id=None):
+    proto = Proto()
+    constriction, np = import_constriction(proto)
+    g = Gen(seed, tier, np)
+    groups = all_groups(g, tier)          # always generated completely: ids and inputs are reproducible
     written = 0
-    with open(out_path, "w") as out:
-        for group in groups:
+    with open(out_path, "a") as out:
+        for gi in range(start_group, len(groups)):
+            group = groups[gi]
             if only_id is not None and not any(c["id"] == only_id for c in group):
                 continue
+            proto.line("GROUP %d" % gi)
             done = []
             for c in group:
-                proto.line("RUNNING %d" % c["id"])
+                proto.line("RUNNING %d timeout=%s %s %s" % (c["id"], c.get("timeout", CASE_TIMEOUT), case_label(c), short_case(c)))
                 try:
                     checks = execute_case(constriction, np, c)
                 except BaseException as e:
                     # valid inputs by construction: an exception here is a front-end problem
-                    prop = {"ans": "C01", "range": "C02", "chain": "C13"}[c["coder"]]
+                    prop = PROP_OF_CODER[c["coder"]]
                     proto.line("EVAL %s 1" % prop)
                     proto.line("FAIL %s python front end raised on a valid case [%s case %d %s]: %s: %s case=%s"
                                % (prop, g.tag, c["id"], case_label(c), type(e).__name__, one_line(e, 300), short_case(c)))
                     continue
+                if "probe" in c:
+                    proto.line("EVAL C10 1")
+                    proto.line("HIST pyfront.py.probe.returned 1")
                 for prop, ok, text in checks:
                     proto.line("EVAL %s 1" % prop)
                     if not ok:
                         proto.line("FAIL %s python front end [%s case %d %s]: %s case=%s"
                                    % (prop, g.tag, c["id"], case_label(c), one_line(text, 500), short_case(c)))
-                proto.line("HIST pyfront.py.%s 1" % case_label(c))
+                proto.line("HIST pyfront.py.coder.%s 1" % c["coder"])
                 if c["model"] == "cat":
                     proto.line("HIST pyfront.py.cat.style.%s 1" % c.get("style", "?"))
                 done.append(c)
-                out.write(case_json({k: v for k, v in c.items() if k not in ("style", "twin_of", "expect_words")}) + "\n")
+                out.write(case_json({k: v for k, v in c.items()
+                                     if k not in ("style", "twin_of", "expect_words", "probe", "timeout")}) + "\n")
+                out.flush()
                 written += 1
             # twins: same inputs through another representation of the same model -> same words
             for c in done[1:]:
@@ -902,29 +1009,53 @@ def harness_binary(rep):
 
 def campaign_diff(rep, seed, tier, only_id=None):
     cases = os.path.join(so_dir(), "cases.jsonl" if only_id is None else "case-%d.jsonl" % only_id)
-    args = ["_gen", str(seed), tier, cases] + ([str(only_id)] if only_id is not None else [])
-    rc, last, extra = run_worker(args, rep, "gen")
-    written = 0
-    for l in extra:
-        if l.startswith("WRITTEN "):
-            written = int(l.split()[1])
-    if "DONE" not in extra:
+    open(cases, "w").close()
+    start, restarts, finished = 0, 0, False
+    while restarts <= 25:
+        args = ["_gen", str(seed), tier, cases, str(start), str(only_id) if only_id is not None else "-"]
+        status, extra = run_worker(args, rep, "gen")
+        if status == "done":
+            finished = True
+            break
+        groups = [l for l in extra if l.startswith("GROUP ")]
         running = [l for l in extra if l.startswith("RUNNING ")]
-        where = running[-1][8:] if running else "?"
-        if rc is not None and rc < 0:
+        if status == "exit" or not groups or not running:
+            if not rep.errors:
+                rep.error("differential worker ended early (%s) after %s" % (status, (running or ["nothing"])[-1][:80]))
+            break
+        # the worker hung or died inside a case that is valid by construction
+        _, cid, tmo, label, text = (running[-1].split(" ", 4) + [""])[:5]
+        coder = label.split(".")[0]
+        replay = "replay: tools/pyfront.py case %d %s %s" % (seed, tier, cid)
+        if status == "hang":
+            rep.eval("C10")
+            rep.fail("C10", "python front end hangs: no result after %s s (killed) on a valid case [seed=%d tier=%s case %s %s; %s] case=%s"
+                     % (tmo[8:], seed, tier, cid, label, replay, text))
+        else:
             rep.eval("C20")
-            rep.fail("C20", "python front end: interpreter died with signal %d on a valid differential case [seed=%d tier=%s case %s]; "
-                            "replay: tools/pyfront.py case %d %s %s" % (-rc, seed, tier, where, seed, tier, where))
-        elif not rep.errors:
-            rep.error("differential worker ended early (exit %s) at case %s" % (rc, where))
+            rep.fail("C20", "python front end: interpreter died (%s) on a valid case [seed=%d tier=%s case %s %s; %s] case=%s"
+                     % (extra[-1], seed, tier, cid, label, replay, text))
+        rep.count("pyfront.py.%s" % status)
+        start = int(groups[-1].split()[1]) + 1
+        restarts += 1
+        if only_id is not None:
+            finished = True
+            break
+    if not finished:
         return cases
+    with open(cases) as f:
+        written = sum(1 for l in f if l.strip())
     if written == 0:
         return cases
     h = harness_binary(rep)
     if h is None:
         rep.error("cvharness binary not found (set PYFRONT_HARNESS or build /verif/harness)")
         return cases
-    p = subprocess.run([h, "pyfront", cases], stdout=subprocess.PIPE, stderr=subprocess.PIPE, text=True)
+    try:
+        p = subprocess.run([h, "pyfront", cases], stdout=subprocess.PIPE, stderr=subprocess.PIPE, text=True, timeout=1800)
+    except subprocess.TimeoutExpired:
+        rep.error("%s pyfront %s did not finish within 1800 s" % (h, cases))
+        return cases
     seen = 0
     for line in p.stdout.splitlines():
         rep.absorb(line)
@@ -1022,18 +1153,18 @@ FIXED_CTOR_CASES = [
     ("ans().encode_reverse(-1, M.Categorical(arr([0.5, 0.5]), lazy=True))", None),
     ("ans().encode_reverse(2, M.Categorical(arr([0.5, 0.5]), lazy=True))", None),
     # --- quantized continuous models
-    ("M.QuantizedGaussian(-10, 10, 0.0, 0.0)", [0, -10, 10]),
-    ("M.QuantizedGaussian(-10, 10, 0.0, -1.0)", [0, -10, 10]),
-    ("M.QuantizedGaussian(-10, 10, 0.0, -0.0)", [0, -10, 10]),
-    ("M.QuantizedGaussian(-10, 10, 0.0, nan)", [0, -10, 10]),
-    ("M.QuantizedGaussian(-10, 10, 0.0, inf)", [0, -10, 10]),
-    ("M.QuantizedGaussian(-10, 10, nan, 1.0)", [0, -10, 10]),
-    ("M.QuantizedGaussian(-10, 10, inf, 1.0)", [0, -10, 10]),
-    ("M.QuantizedGaussian(-10, 10, -inf, 1.0)", [0, -10, 10]),
-    ("M.QuantizedGaussian(-10, 10, 1e300, 1e-300)", [0, -10, 10]),
-    ("M.QuantizedGaussian(-10, 10, -1e300, 1e300)", [0, -10, 10]),
+    ("M.QuantizedGaussian(-10, 10, 0.0, 0.0)", list(range(-10, 11))),
+    ("M.QuantizedGaussian(-10, 10, 0.0, -1.0)", list(range(-10, 11))),
+    ("M.QuantizedGaussian(-10, 10, 0.0, -0.0)", list(range(-10, 11))),
+    ("M.QuantizedGaussian(-10, 10, 0.0, nan)", list(range(-10, 11))),
+    ("M.QuantizedGaussian(-10, 10, 0.0, inf)", list(range(-10, 11))),
+    ("M.QuantizedGaussian(-10, 10, nan, 1.0)", list(range(-10, 11))),
+    ("M.QuantizedGaussian(-10, 10, inf, 1.0)", list(range(-10, 11))),
+    ("M.QuantizedGaussian(-10, 10, -inf, 1.0)", list(range(-10, 11))),
+    ("M.QuantizedGaussian(-10, 10, 1e300, 1e-300)", list(range(-10, 11))),
+    ("M.QuantizedGaussian(-10, 10, -1e300, 1e300)", list(range(-10, 11))),
     ("M.QuantizedGaussian(-10, 10, 0.0, 5e-324)", [0, -10, 10, 1]),
-    ("M.QuantizedGaussian(-10, 10, 0.0, 1e308)", [0, -10, 10]),
+    ("M.QuantizedGaussian(-10, 10, 0.0, 1e308)", list(range(-10, 11))),
     ("M.QuantizedGaussian(10, -10, 0.0, 1.0)", [0]),
     ("M.QuantizedGaussian(3, 3, 0.0, 1.0)", [3]),
     ("M.QuantizedGaussian(10, -10)", None),
@@ -1048,24 +1179,24 @@ FIXED_CTOR_CASES = [
     ("M.QuantizedGaussian(0, 2**31, 0.0, 1.0)", [0]),
     ("M.QuantizedGaussian(0.5, 10, 0.0, 1.0)", [1]),
     ("M.QuantizedGaussian(-10, 10, 'a', 1.0)", [0]),
-    ("M.QuantizedGaussian(-10, 10, 0.0)", [0]),
+    ("M.QuantizedGaussian(-10, 10, 0.0)", None),          # a family with a free `std`: valid
     ("M.QuantizedGaussian()", None),
-    ("M.QuantizedLaplace(-10, 10, 0.0, 0.0)", [0, -10, 10]),
-    ("M.QuantizedLaplace(-10, 10, 0.0, -2.5)", [0, -10, 10]),
-    ("M.QuantizedLaplace(-10, 10, 0.0, nan)", [0, -10, 10]),
-    ("M.QuantizedLaplace(-10, 10, 0.0, inf)", [0, -10, 10]),
-    ("M.QuantizedLaplace(-10, 10, nan, 1.0)", [0, -10, 10]),
-    ("M.QuantizedLaplace(-10, 10, inf, 1.0)", [0, -10, 10]),
-    ("M.QuantizedLaplace(-10, 10, 1e300, 1e-300)", [0, -10, 10]),
+    ("M.QuantizedLaplace(-10, 10, 0.0, 0.0)", list(range(-10, 11))),
+    ("M.QuantizedLaplace(-10, 10, 0.0, -2.5)", list(range(-10, 11))),
+    ("M.QuantizedLaplace(-10, 10, 0.0, nan)", list(range(-10, 11))),
+    ("M.QuantizedLaplace(-10, 10, 0.0, inf)", list(range(-10, 11))),
+    ("M.QuantizedLaplace(-10, 10, nan, 1.0)", list(range(-10, 11))),
+    ("M.QuantizedLaplace(-10, 10, inf, 1.0)", list(range(-10, 11))),
+    ("M.QuantizedLaplace(-10, 10, 1e300, 1e-300)", list(range(-10, 11))),
     ("M.QuantizedLaplace(7, 7, 0.0, 1.0)", [7]),
     ("M.QuantizedLaplace(8, 7, 0.0, 1.0)", [7]),
-    ("M.QuantizedCauchy(-10, 10, 0.0, 0.0)", [0, -10, 10]),
-    ("M.QuantizedCauchy(-10, 10, 0.0, -2.5)", [0, -10, 10]),
-    ("M.QuantizedCauchy(-10, 10, 0.0, nan)", [0, -10, 10]),
-    ("M.QuantizedCauchy(-10, 10, 0.0, inf)", [0, -10, 10]),
-    ("M.QuantizedCauchy(-10, 10, nan, 1.0)", [0, -10, 10]),
-    ("M.QuantizedCauchy(-10, 10, -inf, 1.0)", [0, -10, 10]),
-    ("M.QuantizedCauchy(-10, 10, 1e300, 1e-300)", [0, -10, 10]),
+    ("M.QuantizedCauchy(-10, 10, 0.0, 0.0)", list(range(-10, 11))),
+    ("M.QuantizedCauchy(-10, 10, 0.0, -2.5)", list(range(-10, 11))),
+    ("M.QuantizedCauchy(-10, 10, 0.0, nan)", list(range(-10, 11))),
+    ("M.QuantizedCauchy(-10, 10, 0.0, inf)", list(range(-10, 11))),
+    ("M.QuantizedCauchy(-10, 10, nan, 1.0)", list(range(-10, 11))),
+    ("M.QuantizedCauchy(-10, 10, -inf, 1.0)", list(range(-10, 11))),
+    ("M.QuantizedCauchy(-10, 10, 1e300, 1e-300)", list(range(-10, 11))),
     ("M.QuantizedCauchy(7, 7, 0.0, 1.0)", [7]),
     ("M.QuantizedCauchy(-2**23, 2**23, 0.0, 1.0)", [0]),
     # families: invalid parameters / shapes / dtypes at encode time
@@ -1140,17 +1271,23 @@ FIXED_CTOR_CASES = [
     ("M.Binomial(-1, 0.5)", [0]),
     ("M.Binomial(-2**31, 0.5)", [0]),
     ("M.Binomial(1, 0.5)", [0, 1, 1]),
-    ("M.Binomial(10, 0.0)", [0, 10, 3]),
-    ("M.Binomial(10, 1.0)", [10, 0, 3]),
-    ("M.Binomial(10, 2.0)", [0, 10, 3]),
-    ("M.Binomial(10, -0.5)", [0, 10, 3]),
-    ("M.Binomial(10, nan)", [0, 10, 3]),
-    ("M.Binomial(10, inf)", [0, 10, 3]),
+    ("M.Binomial(10, 0.0)", list(range(0, 11))),
+    ("M.Binomial(10, 1.0)", list(range(0, 11))),
+    ("M.Binomial(10, 2.0)", list(range(0, 11))),
+    ("M.Binomial(10, -0.5)", list(range(0, 11))),
+    ("M.Binomial(10, nan)", list(range(0, 11))),
+    ("M.Binomial(10, inf)", list(range(0, 11))),
+    ("M.Binomial(16777215, 1.5)", [0, 16777215, 8388607]),
+    ("M.Binomial(999, 1.0)", [999, 0, 500]),               # documented: p = 0.0 and p = 1.0 are allowed
+    ("M.Binomial(999, 0.0)", [0, 999, 500]),
+    ("M.Binomial(1000, 0.0)", [0, 1000, 500]),
+    ("M.Binomial(1000, 1.0)", [1000, 0, 500]),             # did not return when this check was written
+    ("M.Binomial(1000, -0.5)", [0, 500, 1000]),
     ("M.Binomial(2**24, 0.5)", [0, 2**24, 2**23]),
     ("M.Binomial(2**24 - 1, 0.5)", [0, 2**24 - 1, 2**23]),
     ("M.Binomial(2**31 - 1, 0.5)", [0]),
     ("M.Binomial(10.5, 0.5)", [0]),
-    ("M.Binomial(10)", [0]),
+    ("M.Binomial(10)", None),                              # a family with a free `p`: valid
     ("ans().encode_reverse(syms([0, 1]), M.Binomial(), syms([5, 0]), arr([0.5, 0.5]))", None),
     ("ans().encode_reverse(syms([0, 1]), M.Binomial(), syms([5, -3]), arr([0.5, 0.5]))", None),
     ("ans().encode_reverse(syms([0, 1]), M.Binomial(), syms([5, 5]), arr([0.5, 1.5]))", None),
@@ -1162,17 +1299,16 @@ FIXED_CTOR_CASES = [
     # --- custom / scipy models
     ("M.CustomModel(lambda x: 0.5, lambda q: 0.0, 10, -10)", [0]),
     ("M.CustomModel(lambda x: 0.5, lambda q: 0.0, 3, 3)", [3]),
-    ("M.CustomModel(lambda x: nan, lambda q: nan, -5, 5)", [0, -5, 5]),
-    ("M.CustomModel(lambda x: 'a', lambda q: 0.0, -5, 5)", [0, -5, 5]),
-    ("M.CustomModel(lambda x: 1 / 0, lambda q: 0.0, -5, 5)", [0, -5, 5]),
-    ("M.CustomModel(lambda x: 0.0 if x < 0 else 1.0, lambda q: 1 / 0, -5, 5)", [0, -5, 5]),
+    # (CustomModel callbacks that are decreasing or leave [0, 1] violate a documented precondition of
+    #  CustomModel itself and cannot be checked by its constructor: not exercised here)
+    ("M.CustomModel(lambda x: nan, lambda q: nan, -5, 5)", list(range(-5, 6))),
+    ("M.CustomModel(lambda x: 'a', lambda q: 0.0, -5, 5)", list(range(-5, 6))),
+    ("M.CustomModel(lambda x: 1 / 0, lambda q: 0.0, -5, 5)", list(range(-5, 6))),
+    ("M.CustomModel(lambda x: 0.0 if x < 0 else 1.0, lambda q: 1 / 0, -5, 5)", list(range(-5, 6))),
     ("M.CustomModel(lambda x: min(1.0, max(0.0, (x + 5.5) / 11)), lambda q: 11 * q - 5.5, -5, 5)", [0, -5, 5, 3]),
-    ("M.CustomModel(lambda x: 1.0 - min(1.0, max(0.0, (x + 5.5) / 11)), lambda q: 0.0, -5, 5)", [0, -5, 5, 3]),
-    ("M.CustomModel(lambda x: 7.0, lambda q: 1e300, -5, 5)", [0, -5, 5]),
-    ("M.CustomModel(lambda x: -3.0, lambda q: -1e300, -5, 5)", [0, -5, 5]),
     ("M.CustomModel(None, None, -5, 5)", [0]),
     ("M.ScipyModel(object(), -5, 5)", [0]),
-    ("M.ScipyModel(__import__('scipy.stats').stats.norm(0.0, 0.0), -5, 5)", [0, -5, 5]),
+    ("M.ScipyModel(__import__('scipy.stats').stats.norm(0.0, 0.0), -5, 5)", list(range(-5, 6))),
     ("M.ScipyModel(__import__('scipy.stats').stats.norm(0.0, 2.0), -5, 5)", [0, -5, 5, 1]),
     ("M.ScipyModel(__import__('scipy.stats').stats.norm(0.0, 2.0), 5, -5)", [0]),
     ("M.Model()", [0]),
@@ -1241,7 +1377,7 @@ def random_ctor_cases(seed, tier):
             scale = r.choice([1.0, 0.0, -0.0, -1.0, float("nan"), float("inf"), float("-inf"), 5e-324, 1e-300, 1e300,
                               r.uniform(-1, 5)])
             expr = "M.%s(%d, %d, %s, %s)" % (cls, lo, hi, fl(loc), fl(scale))
-            out.append((expr, sorted({lo, hi, min(hi, max(lo, 0))})))
+            out.append((expr, list(range(lo, hi + 1)) if 0 < hi - lo <= 64 else sorted({lo, hi, min(hi, max(lo, 0))})))
         elif k < 0.85:
             size = r.choice([0, 1, 2, 3, -1, -5, 2**24, 2**24 + 1, 2**24 - 1, r.randint(-10, 100), r.randint(2, 2**25)])
             out.append(("M.Uniform(%d)" % size, [0, max(0, min(size, 2**31) - 1)]))
@@ -1250,13 +1386,25 @@ def random_ctor_cases(seed, tier):
             out.append(("M.Bernoulli(%s, perfect=%s)" % (fl(p), r.choice(["True", "False"])), [0, 1, 1, 0]))
         else:
             nn = r.choice([0, 1, 2, -1, 7, 1000, 2**24, 2**24 - 1, r.randint(-5, 50)])
-            p = r.choice([0.0, 1.0, 0.5, 1.5, -0.5, float("nan"), float("inf"), r.uniform(-0.2, 1.2)])
-            out.append(("M.Binomial(%d, %s)" % (nn, fl(p)), sorted({0, max(0, nn), max(0, nn) // 2})))
+            # only valid p here: out-of-range and non-finite p are in the fixed list (every such
+            # case costs a watchdog timeout on the tree as checked: the model hangs, see report)
+            p = r.choice([0.0, 1.0, 0.5, r.random(), r.random()])
+            if p in (0.0, 1.0) and nn >= 1000:
+                p = 0.5           # (n >= 1000, p = 1.0) is in the fixed list: it hangs
+            if 0.0 < p < 1.0 and not Gen.binomial_safe(nn, p):
+                p = 0.5           # stay out of the known non-termination region (see Gen.hang_probes)
+            out.append(("M.Binomial(%d, %s)" % (nn, fl(p)),
+                        list(range(0, nn + 1)) if 0 < nn <= 64 else sorted({0, max(0, nn), max(0, nn) // 2})))
     return out
 
 
 def all_ctor_cases(seed, tier):
-    return list(FIXED_CTOR_CASES) + random_ctor_cases(seed, tier)
+    out, seen = [], set()
+    for expr, msg in list(FIXED_CTOR_CASES) + random_ctor_cases(seed, tier):
+        if expr not in seen:
+            seen.add(expr)
+            out.append((expr, msg))
+    return out
 
 
 def worker_ctor(seed, tier, start, only=False):
@@ -1270,6 +1418,7 @@ def worker_ctor(seed, tier, start, only=False):
         expr, msg = cases[idx]
         proto.line("RUNNING %d" % idx)
         outcome, detail = None, ""
+        t_case = time.time()
         try:
             obj = eval(expr, env)
         except Exception as e:
@@ -1285,6 +1434,8 @@ def worker_ctor(seed, tier, start, only=False):
                 outcome, detail = "ok", "returned %s" % type(obj).__name__
             else:
                 outcome, detail = roundtrip(constriction, np, obj, msg)
+        if os.environ.get("PYFRONT_TIMING"):
+            detail += " (%.0f ms)" % (1000 * (time.time() - t_case))
         proto.line("RESULT %d %s %s" % (idx, outcome, detail))
         if only:
             break
@@ -1292,28 +1443,47 @@ def worker_ctor(seed, tier, start, only=False):
 
 
 def roundtrip(constriction, np, model, msg):
-    """a returned model must encode and decode `msg` with both coders; ('ok'|'broken'|'panic', detail)"""
+    """a returned model must (1) encode and decode `msg` with both coders and (2) tile the
+    quantile space: decoding one symbol from an arbitrary ANS state and encoding it again must
+    restore the state (that is C04, which holds for every model whose quantile function and
+    `left_cumulative_and_probability` agree).  ('ok'|'broken'|'panic-late', detail)"""
     symbols = np.array(msg, dtype=np.int32)
-    for name in ("ans", "range"):
-        try:
+    A = constriction.stream.stack.AnsCoder
+    try:
+        for name in ("ans", "range"):
             if name == "ans":
-                enc = constriction.stream.stack.AnsCoder()
+                enc = A()
                 enc.encode_reverse(symbols, model)
-                dec = constriction.stream.stack.AnsCoder(enc.get_compressed())
+                dec = A(enc.get_compressed())
             else:
                 enc = constriction.stream.queue.RangeEncoder()
                 enc.encode(symbols, model)
                 dec = constriction.stream.queue.RangeDecoder(enc.get_compressed())
             got = [int(s) for s in np.asarray(dec.decode(model, len(msg))).tolist()]
-        except Exception as e:
-            return "broken", "model returned, but %s round trip of %s raised %s: %s" % (name, msg, type(e).__name__, one_line(e, 120))
-        except BaseException as e:
-            kind = "panic-late" if type(e).__name__ == "PanicException" else "broken"
-            return kind, "model returned, but %s round trip of %s raised %s.%s: %s" % (
-                name, msg, type(e).__module__, type(e).__name__, one_line(e, 120))
-        if got != list(msg):
-            return "broken", "model returned, but %s round trip of %s decoded %s" % (name, msg, got)
-    return "ok", "model returned; %s round-trips through AnsCoder and RangeEncoder" % (msg,)
+            if got != list(msg):
+                return "broken", "model returned, but %s round trip of %s decoded %s" % (name, msg, got)
+        name = "tiling probe"
+        r = random.Random(len(msg))
+        quantiles = [0, 1, 2, 2**24 - 1, 2**24 - 2, 2**23] + [r.getrandbits(24) for _ in range(250)]
+        for q in quantiles:
+            words = [(r.getrandbits(8) << 24) | q, r.getrandbits(31) | 1]
+            c = A(np.array(words, dtype=np.uint32))
+            s = int(c.decode(model))
+            c.encode_reverse(s, model)
+            back = [int(w) for w in c.get_compressed().tolist()]
+            if back != words:
+                return "broken", ("model returned, but it does not tile the quantile space: AnsCoder(%s).decode(model) = %d, "
+                                  "encode_reverse(%d) then gives %s" % (words, s, s, back))
+    except Exception as e:
+        return "broken", "model returned, but %s of %s raised %s: %s" % (name, msg, type(e).__name__, one_line(e, 120))
+    except BaseException as e:
+        kind = "panic-late" if type(e).__name__ == "PanicException" else "broken"
+        return kind, "model returned, but %s of %s raised %s.%s: %s" % (
+            name, msg, type(e).__module__, type(e).__name__, one_line(e, 120))
+    return "ok", "model returned; %s round-trips through AnsCoder and RangeEncoder, 256 quantiles decode/re-encode exactly" % (msg,)
+
+
+CTOR_TIMEOUT = float(os.environ.get("PYFRONT_CTOR_TIMEOUT", "4"))
 
 
 def campaign_ctor(rep, seed, tier, only_idx=None):
@@ -1324,7 +1494,7 @@ def campaign_ctor(rep, seed, tier, only_idx=None):
     while start < len(cases):
         args = ["_ctor", str(seed), tier, str(start)] + (["only"] if only_idx is not None else [])
         sub = Report()
-        rc, last, extra = run_worker(args, sub, "ctor")
+        status, extra = run_worker(args, sub, "ctor", timeout=CTOR_TIMEOUT)
         for e in sub.errors:
             rep.error(e)
         running = None
@@ -1335,29 +1505,33 @@ def campaign_ctor(rep, seed, tier, only_idx=None):
                 _, idx, outcome, detail = (l.split(" ", 3) + [""])[:4]
                 results[int(idx)] = (outcome, detail)
                 running = None
-        if "DONE" in extra or sub.errors:
+        if status == "done" or sub.errors:
             break
-        # the worker died inside case `running`
+        # the worker hung or died inside case `running`
         if running is None:
-            rep.error("ctor worker ended early (exit %s) without a running case" % rc)
+            rep.error("ctor worker ended early (%s) without a running case" % status)
             break
-        results[running] = ("abort", "interpreter died (%s)" % (("signal %d" % -rc) if rc is not None and rc < 0 else "exit %s" % rc))
+        if status == "hang":
+            results[running] = ("hang", "no result after %g s: the constructor, or coding with the model it returned, never finishes (killed)" % CTOR_TIMEOUT)
+        else:
+            results[running] = ("abort", "interpreter died (%s)" % extra[-1])
         start = running + 1
         restarts += 1
-        if only_idx is not None or restarts > 50:
+        if only_idx is not None or restarts > 60:
             break
     for idx in sorted(results):
         expr, msg = cases[idx]
         outcome, detail = results[idx]
         rep.eval("C19")
         rep.count("C19.py.outcome.%s" % outcome)
-        kind = expr.split("(")[0].replace("M.", "").replace("constriction.stream.", "").replace("()", "")
+        kind = expr.split("(")[0].replace("M.", "").replace("constriction.stream.", "")
         rep.count("C19.py.%s.%s" % (kind, outcome))
         replay = "[replay: tools/pyfront.py ctor %d %s %d]" % (seed, tier, idx)
-        if outcome in ("abort", "broken", "raise-base") or (outcome in ("panic", "panic-late") and PANIC_IS_FAIL):
+        if outcome in ("abort", "broken", "hang", "raise-base") or (outcome in ("panic", "panic-late") and PANIC_IS_FAIL):
             rep.fail("C19", "python %s => %s: %s %s" % (expr, outcome, detail, replay))
         elif outcome in ("panic", "panic-late"):
-            rep.sample("C19", "python panic (clean failure by C19's text; PYFRONT_PANIC=fail makes it a FAIL): %s => %s" % (expr, detail), cap=6)
+            rep.count("C19.py.panic")
+            rep.sample("C19", "python panic (a clean failure by C19's text; PYFRONT_PANIC=fail makes it a FAIL): %s => %s" % (expr, detail), cap=8)
         elif outcome == "raise":
             rep.sample("C19.raise", "python %s => %s" % (expr, detail), cap=2)
         else:
@@ -1376,7 +1550,7 @@ def main(argv):
         worker_docs()
         return 0
     if cmd == "_gen":
-        worker_gen(int(argv[2]), argv[3], argv[4], int(argv[5]) if len(argv) > 5 else None)
+        worker_gen(int(argv[2]), argv[3], argv[4], int(argv[5]), None if argv[6] == "-" else int(argv[6]))
         return 0
     if cmd == "_ctor":
         worker_ctor(int(argv[2]), argv[3], int(argv[4]), only=len(argv) > 5)
@@ -1394,15 +1568,29 @@ def main(argv):
     tier = argv[3] if len(argv) > 3 else "quick"
     t0 = time.time()
     if cmd == "oracle":
-        campaign_docs(rep)
-        t1 = time.time()
-        campaign_diff(rep, seed, tier)
-        t2 = time.time()
-        campaign_ctor(rep, seed, tier)
-        t3 = time.time()
-        rep.count("pyfront.seconds.docs", int(round(t1 - t0)))
-        rep.count("pyfront.seconds.diff", int(round(t2 - t1)))
-        rep.count("pyfront.seconds.ctor", int(round(t3 - t2)))
+        # the three campaigns only drive subprocesses: run them side by side
+        import threading
+        parts = [("docs", Report(), lambda r: campaign_docs(r)),
+                 ("diff", Report(), lambda r: campaign_diff(r, seed, tier)),
+                 ("ctor", Report(), lambda r: campaign_ctor(r, seed, tier))]
+        secs = {}
+
+        def run(name, r, f):
+            t = time.time()
+            try:
+                f(r)
+            except Exception as e:
+                r.error("campaign %s crashed: %s: %s" % (name, type(e).__name__, e))
+            secs[name] = time.time() - t
+        threads = [threading.Thread(target=run, args=part) for part in parts]
+        for t in threads:
+            t.start()
+        for t in threads:
+            t.join()
+        for name, r, _ in parts:
+            rep.merge(r)
+            rep.count("pyfront.seconds.%s" % name, int(round(secs.get(name, 0))))
+        rep.count("pyfront.seconds.total", int(round(time.time() - t0)))
     elif cmd == "case":
         path = campaign_diff(rep, seed, tier, only_id=int(argv[4]))
         sys.stdout.write("# case file: %s\n" % path)
